@@ -34,6 +34,11 @@ fn c17_contract(payload: &[u8], cuts: &[usize], fixed: Option<usize>, large: boo
     let leaves = acc.merkle_leaves.get(&0).cloned().unwrap_or_default();
     match fixed {
         Some(fs) => {
+            // an entry of length 0 is not "no remainder": Builder::update_hash_from_stream flushes EVERY entry as a last leaf,
+            // so an empty one becomes an extra zero-length leaf that depends on how the payload was cut
+            if acc.fixed_size_remainder.get(&0).is_some_and(|r| r.is_empty()) {
+                return Err("an empty remainder entry is left behind (flushed as an extra zero-length leaf)".to_string());
+            }
             let rem = acc.fixed_size_remainder.get(&0).cloned().unwrap_or_default();
             if leaves.len() != body.len() / fs {
                 return Err(format!("{} leaves recorded, {} expected", leaves.len(), body.len() / fs));
